@@ -171,7 +171,7 @@ def r4_input_file(cx):
     ok = "seek" in names and "stream_position" in names and "rewind" in names
     msg = "impl Seek for InputFile overrides seek, rewind and stream_position (found %s)" % sorted(names)
     if ok:
-        sb = F.body(names["stream_position"])
+        sb = F.deep_body(names["stream_position"])
         sub = False
         for blk in sb.blocks:
             for s in blk["s"]:
